@@ -432,6 +432,7 @@ type caseT struct {
 	Warm          [][2]string // an earlier, different request bound the same way (same type, entry point, options) whose
 	WarmS         []srcCase   // result is then written through (pointers, slices, maps): binds must not share state
 	HasWarm       bool
+	Twice         bool      `json:",omitempty"` // the very same source object (the same []*http.Cookie, url.Values, …) was bound once before, into a scratch value
 	Warmup        int       `json:",omitempty"` // before the first bind of the type in this process: 1 WarmupCache, 2 MustWarmupCache
 	WarmNorm      int       `json:",omitempty"` // the earlier request was bound with WithKeyNormalizer (1 LowerCase, 2 CanonicalMIME) - an option the package stores and never reads
 	Norm          int       `json:",omitempty"` // (set on the copy of the case that runs the earlier request)
@@ -497,7 +498,8 @@ var timePool = []string{"2024-01-15T10:30:00Z", "2024-01-15", "2024-01-15 10:30:
 var timeBad = []string{"yesterday", "2024-13-01", "2023-02-29", "10:30", "2024-01-15T25:00:00Z", "", "  ", "2024/01/15", "1705314600"}
 var durPool = []string{"1h", "90s", "1h30m", "500ms", "-2m", "0", "1.5h", "2562047h47m16.854775807s", "1ns", "+3s"}
 var durBad = []string{"5", "1d", "", "h", "2562048h", "1 h", "abc", "--1s"}
-var strPool = []string{"x", "hello", "a b", "", "d-1", "7", "q,r", " padded ", "héllo", "{x}", "[1", "a=b&c", "%41", "tab\there", "0x10", "true"}
+var strPool = []string{"x", "hello", "a b", "", "d-1", "7", "q,r", " padded ", "héllo", "{x}", "[1", "a=b&c", "%41", "tab\there", "0x10", "true",
+	"%2541", "a%2Bb", "100%2525"}
 var boolPool = []string{"true", "false", "1", "0", "yes", "no", "on", "off", "t", "f", "y", "n", "TRUE", "False", " yes ", "On", ""}
 var boolBad = []string{"2", "maybe", "tru", "yess", "-1", "0.0", "nil"}
 var floatPool = []string{"1.5", "-0", "0", "3", "-2.25", "1e10", "1e38", "3.4028234663852886e38", "-3.4028234663852886e38", "1e-45", "1e-320",
@@ -795,6 +797,7 @@ func genCase1(r *hx.Rand) caseT {
 		return c
 	}
 	c.Src = genSrc(r, ct.Shapes[c.Tag], c.Tag, c.Opts, &c.NT, r.Range(3, 9))
+	c.Twice = r.Chance(1, 4)
 	if (c.Tag == 0 || c.Tag == 2) && r.Chance(1, 3) {
 		// one nested struct field of the top level given as a JSON value under its own key
 		var tops []structKey
@@ -1942,6 +1945,16 @@ func emit(id string, c caseT, st *hx.Stats) string {
 			}
 		}()
 	}
+	if c.Twice && c.Conc == 0 && (c.Entry == "G" || c.Entry == "T") {
+		// the same source object is bound once before (a middleware and a handler binding the same parsed cookies,
+		// query values, headers …): a bind must leave its source as it found it
+		func() {
+			defer func() { _ = recover() }()
+			w := c
+			w.Entry, w.Binder, w.Conc, w.EvB = "T", false, 0, 0
+			_, _, _ = run(ct, &w, s, ct.E.New())
+		}()
+	}
 	var res any
 	var err error
 	var panicked bool
@@ -2054,6 +2067,9 @@ func emit(id string, c caseT, st *hx.Stats) string {
 		}
 		if c.Warmup != 0 {
 			st.Count("first_bind_after_WarmupCache")
+		}
+		if c.Twice && c.Conc == 0 && (c.Entry == "G" || c.Entry == "T") {
+			st.Count("same_source_object_bound_before")
 		}
 		if c.Binder {
 			st.Count("binder_" + c.Entry)
@@ -2448,6 +2464,22 @@ func fixedCases() []caseT {
 			case lf.Kind == "map" && lf.Nested && lf.Prim == "s" && !f:
 				f = true
 				out = append(out, caseT{T: ct.E.Name, Tag: 0, Entry: "G", Opts: optsT{-1, -1, -1, false, false, nil}, Src: [][2]string{{lf.Keys[0] + ".a", "v"}}, NT: true})
+			}
+		}
+	}
+	// the same parsed cookies bound twice: a bind leaves its source as it found it (a value that still looks escaped
+	// after one unescape)
+	ntw := 0
+	for _, ct := range types {
+		if ntw >= 2 {
+			break
+		}
+		for _, lf := range ct.Shapes[4].Leaves {
+			if lf.Kind == "prim" && lf.Prim == "s" && !lf.Nested {
+				ntw++
+				out = append(out, caseT{T: ct.E.Name, Tag: 4, Entry: hx.Pick(hx.NewRand(uint64(ntw)), []string{"G", "T"}), Opts: optsT{-1, -1, -1, false, false, nil},
+					Src: [][2]string{{lf.Keys[0], hx.Pick(hx.NewRand(uint64(ntw)), []string{"a%2Bb", "100%2525"})}}, NT: true, Twice: true})
+				break
 			}
 		}
 	}
